@@ -1,4 +1,5 @@
-import TextxVerif.Proofs.LinkLocLoop
+import TextxVerif.Proofs.LinkLocFirst
+import TextxVerif.Proofs.LinkLocCount
 /-!
 # C28 — model loading errors point at the offending text
 
@@ -46,6 +47,32 @@ line and column are equal — so a correct line/col *is* the location of the tex
 theorem C28_linecol_identifies (input : List Char) (p q : Nat) (hp : p ≤ input.length)
     (hq : q ≤ input.length) (h : lineColSpec input p = lineColSpec input q) : p = q :=
   lineColSpec_injective input p q hp hq h
+
+/-- **What line and column mean** (second, non-recursive description of `lineColSpec`; it is what
+the harness oracle computes with `text.count("\n", 0, off)` and `text.rfind("\n", 0, off)`): for an
+offset inside the text (or at its end) the line is one plus the number of `'\n'` before the offset, and
+the column is one plus the distance from the line start `s = pos - (col - 1)`, where `s` is offset 0 or
+the offset just after a `'\n'`, and there is no `'\n'` between `s` and the offset. -/
+theorem C28_linecol_meaning (input : List Char) (pos : Nat) (h : pos ≤ input.length) :
+    (lineColSpec input pos).1 = (input.take pos).count '\n' + 1 ∧
+    1 ≤ (lineColSpec input pos).2 ∧ (lineColSpec input pos).2 - 1 ≤ pos ∧
+    (pos - ((lineColSpec input pos).2 - 1) = 0 ∨
+      input[pos - ((lineColSpec input pos).2 - 1) - 1]? = some '\n') ∧
+    (∀ i, pos - ((lineColSpec input pos).2 - 1) ≤ i → i < pos → input[i]? ≠ some '\n') :=
+  lineColSpec_meaning input pos h
+
+/-- **The `'\r'` alternative of `pos_to_linecol` is dead.**  For every text and every
+offset (also outside the text), `pos_to_linecol` equals the variant `posToLineColLF` whose
+test `input[line_end] in '\n\r'` is replaced by "true": the line-end table holds offsets of
+`'\n'` only, so the test always succeeds through `'\n'`.  Hence "newline" means `'\n'`
+alone — a `'\r'` is an ordinary character that advances the column (as in `lineColSpec`). -/
+theorem C28_linecol_cr_dead (input : List Char) (pos : Nat) :
+    posToLineCol input pos = posToLineColLF input pos :=
+  posToLineCol_eq_LF input pos
+
+/-- a `"\r\n"` text: the `'\r'` counts as a column of line 1, line 2 starts after the `'\n'` -/
+example : posToLineCol "ab\r\ncd".toList 3 = (1, 4) ∧ posToLineCol "ab\r\ncd".toList 5 = (2, 2) ∧
+    lineColSpec "ab\r\ncd".toList 5 = (2, 2) := by decide
 
 /-- **Syntax errors.** If loading ends with a syntax error then it is the error of
 the first file (in load order) that does not parse, and it names that file
@@ -144,6 +171,155 @@ theorem C28_total (files : List FileSpec) (ans : Nat → Nat → Answer) :
       unfold enoughFuel
       omega
 
+/-! ### "Unresolvable cross references": which reference, and when
+
+Definitions (`Proofs/LinkLocFirst.lean`), all in terms of the provider answers only:
+* `PostponedThrough ans K q` — `q` was answered "postponed" in every round `0 … K`;
+* `ResolvedBefore ans K q` — the first answer for `q` other than "postponed" came in a round `< K` and was an object;
+* `Progress files ans j` — some reference of some file got its first non-"postponed" answer, an object, in round `j`;
+* `GaveUpAt files ans K` — every reference of every file is `ResolvedBefore K` or `PostponedThrough K`, and every
+  round `j < K` made progress: the loop runs the rounds `0 … K` and round `K` is the first that resolves nothing;
+* `FirstUnresolvable files ans K f r` — `files = pre ++ f :: post`, `f.refs = r1 ++ r :: r2`, `r` is
+  `PostponedThrough K`, every reference of the files `pre` and every reference in `r1` is `ResolvedBefore K`. -/
+
+/-- **The "unresolvable" error is located at the first unresolvable reference.**
+If loading ends with "Unresolvable cross references" then the loop gave up after
+some round `K < fuel` (every reference was resolved before round `K` or is still
+postponed in round `K`; every earlier round resolved something), and the error
+names the file and the line / column of the reference `r` that is the *first* one,
+in load order (files in load order, references in text order), that was postponed
+in all rounds `0 … K`: every reference before it was resolved.  This replaces the
+weak clause of `Offending` for this kind ("postponed at some time") and says which
+of several unresolvable references is reported. -/
+theorem C28_unresolvable_first (files : List FileSpec) (ans : Nat → Nat → Answer) (fuel : Nat) (e : Err)
+    (hpos : ∀ f ∈ files, ∀ r ∈ f.refs, r.pos ≤ f.text.length)
+    (h : run files ans fuel = .err e) (hk : e.kind = .unresolvable) :
+    ∃ K f r, K < fuel ∧ GaveUpAt files ans K ∧ FirstUnresolvable files ans K f r ∧ PointsAt e f r.pos := by
+  unfold run at h
+  cases hl : loadFrom 0 files with
+  | error e' =>
+    rw [hl] at h
+    injection h with h; subst h
+    obtain ⟨_, f, _, p, _, _, _, h4⟩ := loadFrom_err files 0 e' hl
+    subst h4
+    simp [errSyntax] at hk
+  | ok ms =>
+    rw [hl] at h
+    have hex := loadFrom_exact ans files 0 ms hl
+    obtain ⟨K, f, r, hK, hfirst, hgave, hfile, hlc⟩ :=
+      resolveLoop_unres ans files fuel 0 ms hex (by intro j hj; omega) e h hk
+    refine ⟨K, f, r, by omega, hgave, hfirst, hfile, ?_⟩
+    obtain ⟨pre, post, r1, r2, hfs, hrefs, _⟩ := hfirst
+    have hf : f ∈ files := by rw [hfs]; simp
+    have hr : r ∈ f.refs := by rw [hrefs]; simp
+    rw [posToLineCol_spec f.text r.pos (hpos f hf r hr)] at hlc
+    exact ⟨congrArg Prod.fst hlc, congrArg Prod.snd hlc⟩
+
+/-- … and conversely: when all files parse and the provider answers are such that the
+loop gives up after round `K` (`GaveUpAt`) with some reference still postponed, the
+load ends with the "unresolvable" error (given `K + 1` rounds of fuel; `C28_total`:
+`enoughFuel` always suffices). -/
+theorem C28_unresolvable_raised (files : List FileSpec) (ans : Nat → Nat → Answer) (fuel K : Nat)
+    (hparse : ∀ f ∈ files, f.nm = none) (hg : GaveUpAt files ans K)
+    (hq : ∃ g ∈ files, ∃ q ∈ g.refs, PostponedThrough ans K q) (hfuel : K < fuel) :
+    ∃ e, run files ans fuel = .err e ∧ e.kind = .unresolvable := by
+  obtain ⟨ms, hl⟩ := loadFrom_total files 0 hparse
+  have hex := loadFrom_exact ans files 0 ms hl
+  obtain ⟨e, he, hk⟩ := resolveLoop_gaveup ans files K hg hq fuel 0 ms hex (by omega) (by omega)
+  exact ⟨e, by simp [run, hl, he], hk⟩
+
+/-- Declarative characterisation of the "unresolvable" outcome, from the answers alone
+(no hypothesis on offsets). -/
+theorem C28_unresolvable_iff (files : List FileSpec) (ans : Nat → Nat → Answer) (fuel : Nat) :
+    (∃ e, run files ans fuel = .err e ∧ e.kind = .unresolvable) ↔
+    ((∀ f ∈ files, f.nm = none) ∧
+      ∃ K < fuel, GaveUpAt files ans K ∧ ∃ g ∈ files, ∃ q ∈ g.refs, PostponedThrough ans K q) := by
+  constructor
+  · rintro ⟨e, h, hk⟩
+    unfold run at h
+    cases hl : loadFrom 0 files with
+    | error e' =>
+      rw [hl] at h
+      injection h with h; subst h
+      obtain ⟨_, f, _, p, _, _, _, h4⟩ := loadFrom_err files 0 e' hl
+      subst h4
+      simp [errSyntax] at hk
+    | ok ms =>
+      rw [hl] at h
+      have hex := loadFrom_exact ans files 0 ms hl
+      obtain ⟨K, f, r, hK, hfirst, hgave, _, _⟩ :=
+        resolveLoop_unres ans files fuel 0 ms hex (by intro j hj; omega) e h hk
+      refine ⟨(loadFrom_ok ans files 0 ms hl).2, K, by omega, hgave, ?_⟩
+      obtain ⟨pre, post, r1, r2, hfs, hrefs, hpt, _⟩ := hfirst
+      exact ⟨f, by rw [hfs]; simp, r, by rw [hrefs]; simp, hpt⟩
+  · rintro ⟨hparse, K, hK, hg, hq⟩
+    exact C28_unresolvable_raised files ans fuel K hparse hg hq hK
+
+/-- The round after which the loop gives up is determined by the answers. -/
+theorem C28_giveup_round_unique (files : List FileSpec) (ans : Nat → Nat → Answer) (K K' : Nat)
+    (h : GaveUpAt files ans K) (h' : GaveUpAt files ans K') : K = K' :=
+  gaveUpAt_unique files ans K K' h h'
+
+/-- **The loop agrees with the executable specification** (`LinkLocSpec.lean`, computed from
+the reference lists and the provider answers alone, and compared with the real code by the
+harness): if loading ends with "Unresolvable cross references", then `giveUpRound` finds the
+round `K` after which the loop gave up, `firstPending` finds the first reference in load order
+that is postponed in all rounds `0 … K`, and the error names the file and line / column of
+exactly that reference.  (`askTrace files ans K`, the sequence of provider calls the harness
+compares, lists for each round `0 … K` the references `pendB`-pending at its start — by
+`stepModels_exact` these are the references the loop model passes over in that round.) -/
+theorem C28_unresolvable_computed (files : List FileSpec) (ans : Nat → Nat → Answer) (fuel : Nat) (e : Err)
+    (hpos : ∀ f ∈ files, ∀ r ∈ f.refs, r.pos ≤ f.text.length)
+    (h : run files ans fuel = .err e) (hk : e.kind = .unresolvable) :
+    ∃ K f r, giveUpRound files ans fuel = some K ∧ firstPending files ans K = some (f, r) ∧
+      PointsAt e f r.pos := by
+  obtain ⟨K, f, r, hK, hg, hfirst, hpt⟩ := C28_unresolvable_first files ans fuel e hpos h hk
+  refine ⟨K, f, r, ?_, firstPending_eq files ans K f r hfirst, hpt⟩
+  obtain ⟨pre, post, r1, r2, hfs, hrefs, hp, _⟩ := hfirst
+  exact giveUpRound_eq files ans fuel K hK hg ⟨f, by rw [hfs]; simp, r, by rw [hrefs]; simp, hp⟩
+
+/-- `Offending` with the strong clause for "unresolvable": the loop gave up after a round `K`
+and `r` (in `f`) is the first reference in load order postponed in all rounds `0 … K` -/
+def OffendingStrong (files : List FileSpec) (ans : Nat → Nat → Answer) (kind : Kind) (f : FileSpec)
+    (r : RefSpec) : Prop :=
+  (kind = .unknown ∧ ∃ k, ans k r.id = .unknown ∧ ∀ j < k, ans j r.id = .postponed) ∨
+  (kind = .notUnique ∧ ∃ k root, ans k r.id = .notUnique root ∧ ∀ j < k, ans j r.id = .postponed) ∨
+  (kind = .unresolvable ∧ ∃ K, GaveUpAt files ans K ∧ FirstUnresolvable files ans K f r)
+
+/-- the strong clause implies the old one -/
+theorem OffendingStrong.offending {files : List FileSpec} {ans : Nat → Nat → Answer} {kind : Kind}
+    {f : FileSpec} {r : RefSpec} (h : OffendingStrong files ans kind f r) : Offending ans kind r := by
+  rcases h with h | h | ⟨hk, K, _, _, _, _, _, _, _, hpt, _⟩
+  · exact Or.inl h
+  · exact Or.inr (Or.inl h)
+  · exact Or.inr (Or.inr ⟨hk, K, hpt K (Nat.le_refl _)⟩)
+
+/-- **Reference-resolution errors, strong form** (generalises `C28_ref`, which follows by
+`OffendingStrong.offending`): same statement, but for "unresolvable" the located reference
+is the first one in load order that is postponed through the round after which the loop gave up. -/
+theorem C28_ref_strong (files : List FileSpec) (ans : Nat → Nat → Answer) (fuel : Nat) (e : Err)
+    (hpos : ∀ f ∈ files, ∀ r ∈ f.refs, r.pos ≤ f.text.length)
+    (h : run files ans fuel = .err e) (hk : e.kind ≠ .syntax) :
+    ∃ f ∈ files, ∃ r ∈ f.refs, PointsAt e f r.pos ∧ OffendingStrong files ans e.kind f r := by
+  by_cases hu : e.kind = .unresolvable
+  · obtain ⟨K, f, r, _, hg, hfirst, hpt⟩ := C28_unresolvable_first files ans fuel e hpos h hu
+    have hfirst' := hfirst
+    obtain ⟨pre, post, r1, r2, hfs, hrefs, _⟩ := hfirst'
+    exact ⟨f, by rw [hfs]; simp, r, by rw [hrefs]; simp, hpt, Or.inr (Or.inr ⟨hu, K, hg, hfirst⟩)⟩
+  · obtain ⟨f, hf, r, hr, hpt, hoff⟩ := C28_ref files ans fuel e hpos h hk
+    refine ⟨f, hf, r, hr, hpt, ?_⟩
+    rcases hoff with h1 | h1 | ⟨h1, _⟩
+    · exact Or.inl h1
+    · exact Or.inr (Or.inl h1)
+    · exact absurd h1 hu
+
+/-- the Boolean functions of the executable specification decide the propositions used above -/
+theorem C28_spec_reflects (files : List FileSpec) (ans : Nat → Nat → Answer) (K : Nat) :
+    (gaveUpAtB files ans K = true ↔ GaveUpAt files ans K) ∧
+    (somePostponedB files ans K = true ↔ ∃ g ∈ files, ∃ q ∈ g.refs, PostponedThrough ans K q) ∧
+    (∀ f r, FirstUnresolvable files ans K f r → firstPending files ans K = some (f, r)) :=
+  ⟨gaveUpAtB_iff files ans K, somePostponedB_iff files ans K, firstPending_eq files ans K⟩
+
 /-! ### the pinned (unrepaired) constructions violate the property -/
 
 /-- main model `a` = "abcdefgh", imported model `b` = six empty lines then "z";
@@ -184,5 +360,43 @@ example : run witnessFiles (fun _ _ => .notUnique 0) 5
     = .err ⟨.notUnique, some "b", 7, 1⟩ := by decide
 example : run [⟨none, "ab\ncd".toList, [], some 4⟩] (fun _ _ => .unknown) 5 = .err ⟨.syntax, none, 2, 2⟩ := by decide
 example : ∀ f ∈ witnessFiles, ∀ r ∈ f.refs, r.pos ≤ f.text.length := by decide
+
+/-! non-vacuity of the hypotheses of `C28_unresolvable_first` / `_raised` / `_iff`: three references in
+"x\ny z" — #0 (offset 0) postponed once and then resolved, #1 (offset 2) resolved at once, #2 (offset 4)
+postponed for ever.  Round 0 resolves #1, round 1 resolves #0, round 2 resolves nothing: `K = 2`, and the
+error is located at #2 (line 2, column 3). -/
+def giveupFiles : List FileSpec := [⟨some "a", "x\ny z".toList, [⟨0, 0, 1⟩, ⟨1, 2, 3⟩, ⟨2, 4, 5⟩], none⟩]
+
+def giveupAns : Nat → Nat → Answer := fun k id =>
+  if id = 0 then (if k = 0 then .postponed else .resolved ⟨none, 0, 0⟩)
+  else if id = 1 then .resolved ⟨none, 0, 0⟩ else .postponed
+
+example : run giveupFiles giveupAns 5 = .err ⟨.unresolvable, some "a", 2, 3⟩ := by decide
+example : ∀ f ∈ giveupFiles, f.nm = none := by decide
+example : ∀ f ∈ giveupFiles, ∀ r ∈ f.refs, r.pos ≤ f.text.length := by decide
+example : ∃ g ∈ giveupFiles, ∃ q ∈ g.refs, PostponedThrough giveupAns 2 q :=
+  ⟨_, List.mem_cons_self, ⟨2, 4, 5⟩, by simp, fun _ _ => rfl⟩
+example : giveUpRound giveupFiles giveupAns 5 = some 2 ∧
+    firstPending giveupFiles giveupAns 2 = some (⟨some "a", "x\ny z".toList, [⟨0, 0, 1⟩, ⟨1, 2, 3⟩, ⟨2, 4, 5⟩], none⟩, ⟨2, 4, 5⟩) ∧
+    askTrace giveupFiles giveupAns 2 = [0, 1, 2, 0, 2, 2] := by decide
+example : GaveUpAt giveupFiles giveupAns 2 := by
+  constructor
+  · intro g hg q hq
+    simp only [giveupFiles, List.mem_singleton] at hg
+    subst hg
+    simp only [List.mem_cons, List.not_mem_nil, or_false] at hq
+    rcases hq with rfl | rfl | rfl
+    · exact Or.inl ⟨1, by omega, ⟨none, 0, 0⟩, rfl, fun j hj => by
+        have : j = 0 := by omega
+        subst this; rfl⟩
+    · exact Or.inl ⟨0, by omega, ⟨none, 0, 0⟩, rfl, fun j hj => by omega⟩
+    · exact Or.inr (fun _ _ => rfl)
+  · intro j hj
+    have hj' : j = 0 ∨ j = 1 := by omega
+    rcases hj' with rfl | rfl
+    · exact ⟨_, List.mem_cons_self, ⟨1, 2, 3⟩, by simp, ⟨none, 0, 0⟩, rfl, fun j hj => by omega⟩
+    · exact ⟨_, List.mem_cons_self, ⟨0, 0, 1⟩, by simp, ⟨none, 0, 0⟩, rfl, fun j hj => by
+        have : j = 0 := by omega
+        subst this; rfl⟩
 
 end LinkLoc
